@@ -17,6 +17,9 @@ void verif_note(const char* msg);
 std::uint64_t verif_concretize(std::uint64_t v, std::uint64_t cap);  // exhaustive enumeration (forks), cap = max distinct values
 int verif_is_symbolic(std::uint64_t v);
 void verif_abort(void);
+// Engine S: more than n further call frames from here is a violation (0 switches the limit off). Native: no-op (the harness runs the
+// call on a small stack instead, see harness/json.cpp)
+void verif_depth_limit(std::uint64_t n);
 // uninterpreted function of the input bytes (Engine S only; the native replay never reaches it because redirects exist only in the engine)
 void verif_uf(const char* name, const void* in, std::size_t in_len, void* out, std::size_t out_len);
 // known-finding region directive (DESIGN.md 3): excluded by assumption in the main run, assumed in the finding run
